@@ -129,7 +129,7 @@ func runC47(r *simkit.R) {
 func propC07() *simkit.Property {
 	return &simkit.Property{
 		ID: "C07", Level: "exploration", Bubble: true, TapeLimit: 4000,
-		Rule: "each run = one shard and a history of 10-40 operations over 3-4 objects (with expirations), 3 locks (with/without expiration) and 3 tombstones aimed at them: puts, locks, tombstones, forced garbage marks, reads, epoch ticks (lock/object expiry lands between a tombstone attempt and a GC pass) and GC passes on the simulated clock with small batch sizes; lock and tombstone puts of the same target run as concurrent tasks ordered by the seeded scheduler. Oracle (tracked from acknowledged results): while a live lock (accepted, unexpired at the current epoch) holds on X and X was not force-marked: tombstones on X are rejected, Get never reports removed/expired, GC does not delete X's bytes; a lock for a tombstoned object and a tombstone for a lock object are rejected; a concurrent lock/tombstone pair is never accepted both. distinct = trace digest; non-trivial = >=1 GC pass ran while a live lock protected an expired object, or >=1 concurrent lock/tombstone pair",
+		Rule: "each run = one shard and a history of 10-40 operations over 3-4 objects (with expirations), 3 locks (with/without expiration) and 3 tombstones aimed at them: puts, locks, tombstones, forced garbage marks, reads, epoch ticks (lock/object expiry lands between a tombstone attempt and a GC pass) and GC passes on the simulated clock with small batch sizes; lock and tombstone puts of the same target run as concurrent tasks ordered by the seeded scheduler; about a third of the runs also carry one size-split object (three stored parts, virtual parent with/without expiration) whose lock, tombstone and forced mark name the parent: while its lock is live the tombstone is rejected and every stored part stays readable and in place through expiry handling and GC. Oracle (tracked from acknowledged results): while a live lock (accepted, unexpired at the current epoch) holds on X and X was not force-marked: tombstones on X are rejected, Get never reports removed/expired, GC does not delete X's bytes; a lock for a tombstoned object and a tombstone for a lock object are rejected; a concurrent lock/tombstone pair is never accepted both. distinct = trace digest; non-trivial = >=1 GC pass ran while a live lock protected an expired object, or >=1 concurrent lock/tombstone pair",
 		Run:  runC07,
 		Assumptions: []string{"the expired-objects callback marks unlocked expired objects as the engine does (engine-wide lock check is the ENGINE world's)", "a forced mark (MarkGarbage) ends the obligation, as the statement says"},
 		Components:  shardComponents,
@@ -141,8 +141,43 @@ func runC07(r *simkit.R) {
 	cfg := drawShCfg(r, 2)
 	cfg.rmBatch = []int{1, 2, 100}[r.Intn(3)]
 	nreg := 3 + r.Intn(2)
-	w := newShWorld(r, cfg, nreg+9)
+	// (about a third of the runs carry one size-split object: three stored parts, the parent known
+	// through the last part's header; its lock and its tombstone name the parent)
+	fam := r.Bool(35)
+	nids := nreg + 9
+	if fam {
+		nids += 6
+	}
+	w := newShWorld(r, cfg, nids)
 	w.layoutSimple(nreg, 3, 3, func() int { return []int{10, 300, 2500}[r.Intn(3)] })
+	famP, famLock, famTomb := nreg+9, nreg+13, nreg+14
+	famParts := []int{nreg + 10, nreg + 11, nreg + 12}
+	if fam {
+		sz := func() int { return []int{10, 300, 2500}[r.Intn(3)] }
+		pexp, lexp := -1, -1
+		if r.Bool(40) {
+			pexp = 1 + r.Intn(4)
+		}
+		if r.Bool(50) {
+			lexp = 1 + r.Intn(4)
+		}
+		w.u.Specs[famP] = &zz.Spec{ID: famP, Cnr: 0, Kind: zz.KReg, Parent: -1, First: -1, Split: -1, Exp: pexp, Size: 0, Target: -1, ECRule: -1, Virtual: true, Attrs: [][2]string{{"FileName", "big"}}}
+		w.u.Specs[famParts[0]] = &zz.Spec{ID: famParts[0], Cnr: 0, Kind: zz.KReg, Parent: -1, NoIDPa: true, First: -1, Split: -1, Exp: -1, Size: sz(), Target: -1, ECRule: -1}
+		w.u.Specs[famParts[1]] = &zz.Spec{ID: famParts[1], Cnr: 0, Kind: zz.KReg, Parent: -1, First: famParts[0], Split: -1, Exp: -1, Size: sz(), Target: -1, ECRule: -1}
+		w.u.Specs[famParts[2]] = &zz.Spec{ID: famParts[2], Cnr: 0, Kind: zz.KReg, Parent: famP, First: famParts[0], Split: -1, Exp: -1, Size: sz(), Target: -1, ECRule: -1}
+		w.u.Specs[famLock] = &zz.Spec{ID: famLock, Cnr: 0, Kind: zz.KLock, Parent: -1, First: -1, Split: -1, Exp: lexp, Target: famP, ECRule: -1}
+		w.u.Specs[famTomb] = &zz.Spec{ID: famTomb, Cnr: 0, Kind: zz.KTomb, Parent: -1, First: -1, Split: -1, Exp: 2 + r.Intn(4), Target: famP, ECRule: -1}
+	}
+	famStored := map[int]bool{}
+	famLockAcc, famForced, famTombAcked, famTombed, famMayGone := false, false, false, false, false
+	famW := 0
+	if fam {
+		famW = 1
+	}
+	famLive := func() bool {
+		s := w.u.Specs[famLock]
+		return fam && famLockAcc && (s.Exp < 0 || w.ep.e <= uint64(s.Exp))
+	}
 	// one container so that every lock/tombstone can hit every object
 	for id := range w.u.IDs {
 		w.u.Specs[id].Cnr = 0
@@ -186,11 +221,50 @@ func runC07(r *simkit.R) {
 				mayGone[x] = true
 			}
 		}
+		if fam {
+			famTombed = famTombAcked && !w.expiredSpec(famTomb)
+			if w.expiredSpec(famP) && !famLive() {
+				famMayGone = true // the big object was expired and unprotected at some point
+			}
+		}
 	}
 	nops := 10 + r.Intn(31)
 	for i := 0; i < nops; i++ {
 		refresh()
-		switch r.Weighted(22, 14, 14, 6, 12, 12, 12, 8) {
+		switch r.Weighted(22, 14, 14, 6, 12, 12, 12, 8, 12*famW, 7*famW, 7*famW, 2*famW) {
+		case 8: // a part of the big object
+			op := &shOp{kind: "put", id: famParts[r.Intn(3)]}
+			w.seqOp(op)
+			if op.err == nil {
+				famStored[op.id] = true
+			}
+		case 9: // lock of the big object (names the parent)
+			op := &shOp{kind: "lock", id: famLock}
+			w.seqOp(op)
+			if op.err == nil {
+				if famTombed && !famLockAcc {
+					r.Failf("lock", "lock accepted for an already tombstoned object", "%s accepted although a tombstone for the split object o%d was acknowledged earlier", w.u.Specs[famLock], famP)
+				}
+				if !w.expiredSpec(famLock) {
+					famLockAcc = true
+				}
+			}
+		case 10: // tombstone of the big object
+			protected := famLive() && !famForced && !famTombAcked
+			op := &shOp{kind: "tomb", id: famTomb}
+			w.seqOp(op)
+			if op.err == nil {
+				if protected {
+					r.Failf("lock", "tombstone accepted for an object protected by a live lock", "%s accepted at epoch %d although a live lock holds on the split object o%d", w.u.Specs[famTomb], w.ep.e, famP)
+				}
+				famTombAcked = true
+			}
+		case 11: // forced mark of the big object
+			op := &shOp{kind: "mark", id: famP}
+			w.seqOp(op)
+			if op.err == nil {
+				famForced = true
+			}
 		case 0:
 			op := &shOp{kind: "put", id: r.Intn(nreg)}
 			w.seqOp(op)
@@ -324,6 +398,38 @@ func runC07(r *simkit.R) {
 					what = "physically deleted"
 				}
 				r.Failf("lock", "locked object "+what, "epoch %d: o%d (%s) is protected by a live lock and was never force-marked, but it is %s: %v (blob=%v cache=%v)", w.ep.e, x, w.u.Specs[x], what, gerr, inB, inW)
+			}
+		}
+		// the locked big object keeps every stored part
+		if famLive() && !famForced && !famTombAcked && !famMayGone {
+			if w.expiredSpec(famP) {
+				interesting = true
+				r.Probe("expired split object protected by a live lock")
+			}
+			for _, x := range famParts {
+				if !famStored[x] {
+					continue
+				}
+				var gerr error
+				var ok, inB, inW bool
+				w.exclusive("check-part", func() {
+					var o *object.Object
+					o, gerr = w.sh.Get(w.addr(x), false)
+					ok = gerr == nil && bytes.Equal(o.Marshal(), w.bin(x))
+					inB, inW = w.physical(x)
+				})
+				if !ok {
+					what := "not readable"
+					switch {
+					case errors.Is(gerr, meta.ErrObjectIsExpired):
+						what = "reported expired"
+					case errors.Is(gerr, apistatus.ErrObjectAlreadyRemoved):
+						what = "reported removed"
+					case !inB && !inW:
+						what = "physically deleted"
+					}
+					r.Failf("lock", "part of a locked split object "+what, "epoch %d: part o%d (%s) of the split object o%d, which is protected by a live lock and was never force-marked, is %s: %v (blob=%v cache=%v)", w.ep.e, x, w.u.Specs[x], famP, what, gerr, inB, inW)
+				}
 			}
 		}
 	}
